@@ -34,9 +34,27 @@ harness!(c09_semiring_binary_trust, 2, {
 });
 
 // Multiplicity documents checked arithmetic (panics on overflow): laws on the non-overflowing range.
-harness!(c09_semiring_multiplicity, 2, {
+// Symbolic x symbolic multiplication is a weak target for a bit-blasting solver: the laws that
+// multiply two symbolic operands twice (associativity, distributivity) get 4-bit operands, the rest 16-bit.
+harness!(c09_semiring_multiplicity_linear, 2, {
     let (a, b, c): (u32, u32, u32) = (any(), any(), any());
-    assume(a < 1024 && b < 1024 && c < 1024);
+    assume(a < 65536 && b < 65536 && c < 65536);
+    let n = |r| Multiplicity::verif_new(r);
+    let add = |x, y| { let mut v = n(x); v.add(n(y)); v.verif_get() };
+    let mul = |x, y| { let mut v = n(x); v.mul(n(y)); v.verif_get() };
+    let (zero, one) = (n(a).zero(), n(a).one());
+    assert!(add(add(a, b), c) == add(a, add(b, c)), "C09 semiring: + not associative");
+    assert!(add(a, b) == add(b, a), "C09 semiring: + not commutative");
+    assert!(add(a, zero) == a && add(zero, a) == a, "C09 semiring: zero() is not the identity of +");
+    assert!(mul(a, one) == a && mul(one, a) == a, "C09 semiring: one() is not the identity of *");
+    assert!(mul(a, zero) == zero && mul(zero, a) == zero, "C09 semiring: zero() does not annihilate");
+    assert!(mul(a, b) == mul(b, a), "C09 Multiplicity: * not commutative");
+    cov!(a > 1 && b > 1 && c > 1, "non-trivial");
+});
+//@ heavy=1
+harness!(c09_semiring_multiplicity_products, 2, {
+    let (a, b, c): (u32, u32, u32) = (any(), any(), any());
+    assume(a < 16 && b < 16 && c < 16);
     semiring_laws!(Multiplicity, a, b, c);
     cov!(a > 1 && b > 1 && c > 1, "non-trivial");
 });
